@@ -40,7 +40,7 @@ MANIFEST = {
             'data; results are compared three-way with an independent evaluator and an independent SQL rendering; reader '
             'histories check that reads depend only on the current content of the feed\'s own storage.',
     'design_ref': 'DESIGN.md section 5 / C06',
-    'note': 'Trusted: relational evaluator + SQL emitter (~450 lines) and the sqlite/duckdb engines themselves.',
+    'note': 'Trusted: relational evaluator + SQL emitter (~450 lines) and the sqlite/duckdb engines themselves (duckdb on one thread).',
     'technique': 'runtime monitoring: differential execution (three-way oracle) of parsed statements; storage-history '
                  'model for feed reads',
 }
@@ -68,6 +68,9 @@ class Engines:
         self.sa = sqlalchemy
         self.engines = {'sqlite': sqlalchemy.create_engine('sqlite://'), 'duckdb': sqlalchemy.create_engine('duckdb:///:memory:')}
         self.conns = {name: engine.connect() for name, engine in self.engines.items()}
+        # duckdb 1.5 answers a nested ORDER BY + LIMIT joined to another table wrongly about once in 80 runs when it runs on
+        # several threads (top-n dynamic filter vs join filter; reproduced on the bare engine, no forml involved): one thread
+        self.conns['duckdb'].execute(sqlalchemy.text('SET threads=1'))
         self.loaded = None
 
     def load(self, data, key):
